@@ -96,7 +96,7 @@ def select(names, cols, sel):
         return [sel % n]
     if isinstance(sel, (list, tuple)) or hasattr(sel, "dtype"):
         sel = list(sel)
-        if len(sel) and all(isinstance(v, (bool,)) or type(v).__name__ == "bool_" for v in sel):
+        if len(sel) and all(isinstance(v, bool) or type(v).__name__ in ("bool_", "bool") for v in sel):
             if len(sel) != n:
                 raise IndexError("mask length")
             return [i for i, v in enumerate(sel) if v]
